@@ -375,6 +375,8 @@ def shards(tier):
                 out.append({"cls": "lod", "fmt": "csv", "suffix": suffix, "n": n, "tier": tier, "encoding": enc})
                 out.append({"cls": "lod", "fmt": "json", "suffix": suffix, "n": n, "tier": tier, "encoding": enc})
             out.append({"cls": "lod", "fmt": "pickle", "suffix": suffix, "n": n, "tier": tier})
+    # keyword arguments the JSON writers hand to json.dumps, on data that the chosen encoding can hold only with them
+    out.append({"cls": "jsonkw", "tier": tier})
     # forms of the path argument (each format once per form)
     for form in ("bare", "bare-pathlib", "pathlib", "new-parent", "relative-subdir"):
         out.append({"cls": "paths", "form": form, "tier": tier})
@@ -394,6 +396,21 @@ def run_shard(shard, rec):
                 check_case({"cls": "df", "fmt": fmt, "suffix": suffix, "opts": opts, "cols": cols, "path_form": shard["form"]}, rec)
             for fmt, opts in (("csv", {"sep": ",", "header": True, "encoding": "utf-8"}), ("json", {"encoding": "utf-8"}), ("pickle", {})):
                 check_case({"cls": "lod", "fmt": fmt, "suffix": suffix, "opts": opts, "items": items, "path_form": shard["form"]}, rec)
+        return
+    if shard["cls"] == "jsonkw":
+        colsets = [[["k", "i8", [1, 2]], ["é", "str", ["日本", None]], ["s", "str", ["é", "x\U0001F600"]]],
+                   [["s", "str", ["ü"]]]]
+        itemsets = [[[["a", "日本"], ["é", "y z"]], [["a", "u"], ["é", None]]], [[["a", "\U0001F600"]]]]
+        for suffix in ("", ".gz"):
+            for enc in ("ascii", "latin-1", "utf-8", "utf-16"):
+                for wk in ({"ensure_ascii": True}, {"ensure_ascii": True, "indent": None}, {"ensure_ascii": True, "indent": 4}):
+                    for cols in colsets:
+                        check_case({"cls": "df", "fmt": "json", "suffix": suffix, "opts": {"encoding": enc}, "write_opts": wk, "cols": cols}, rec)
+                    for items in itemsets:
+                        check_case({"cls": "lod", "fmt": "json", "suffix": suffix, "opts": {"encoding": enc}, "write_opts": wk, "items": items}, rec)
+            for wk in ({"ensure_ascii": False}, {"indent": None}, {"indent": 0}, {"separators": [",", ":"]}):
+                check_case({"cls": "df", "fmt": "json", "suffix": suffix, "opts": {"encoding": "utf-8"}, "write_opts": wk, "cols": colsets[0]}, rec)
+                check_case({"cls": "lod", "fmt": "json", "suffix": suffix, "opts": {"encoding": "utf-8"}, "write_opts": wk, "items": itemsets[0]}, rec)
         return
     if shard["cls"] == "big":
         for fmt, opts in (("csv", {"sep": ",", "header": True, "encoding": "utf-8"}), ("csv", {"sep": ";", "header": False, "encoding": "utf-8"}),
@@ -526,9 +543,12 @@ def _execute(case):
         klass = di.ListOfDicts
     viol = []
     try:
-        getattr(obj, "write_" + fmt)(path, **opts)
+        wopts = dict(opts)
+        for k, v in (case.get("write_opts") or {}).items():
+            wopts[k] = tuple(v) if isinstance(v, list) else v
+        getattr(obj, "write_" + fmt)(path, **wopts)
     except Exception as e:
-        viol.append(("write-raised", f"write_{fmt}({os.path.basename(path)!r}, **{opts!r}) raised {type(e).__name__}: {e}"))
+        viol.append(("write-raised", f"write_{fmt}({os.path.basename(path)!r}, **{wopts!r}) raised {type(e).__name__}: {e}"))
         return in_key, None, "none", viol
     magic_state = "n/a"
     if suffix and fmt in MAGIC_FORMATS:
